@@ -17,9 +17,9 @@ CHECKS = {
          "State after every reopen and after overwrites following a reopen equals the model in all four process configurations.", "trusted: reference model", "3/C05"),
  "C09": ("exploration", "differential runtime monitoring: the same history re-run with the collector inserted at every position; all probes must equal the collector-free model",
          "For every base history the collector (and cleaner drain) is inserted at every position; no read of any actor changes, open readers read to the end.", "trusted: reference model; quiescence barrier", "3/C09"),
- "C11": ("exploration", "differential runtime monitoring through the real gRPC server and client vs the same reference model, plus exhaustive error-mapping round trips over a generated wrapping family",
+ "C11": ("exploration", "differential runtime monitoring through the real gRPC server and client vs the same reference model, exhaustive error-mapping round trips over a generated wrapping family, and inline-vs-gRPC comparison of server-side rejections (empty key, injected no-space) for contents from 0 bytes to 4 MiB",
          "The gRPC client is compared with the model the inline client is compared with (same histories), and every wire sentinel survives Error->ClientError under all generated wrappings.", "trusted: reference model; loopback TCP", "3/C11"),
- "C13": ("exploration", "differential runtime monitoring: late operations through ended / never-begun transaction handles (inline and gRPC), probes by all actors and after reopen, vs reference model",
+ "C13": ("exploration", "differential runtime monitoring: late operations through ended / never-begun transaction handles (inline and gRPC), probes by all actors and after reopen, vs reference model; plus a concurrent role (other goroutines read through a transaction while it ends; reads issued afterwards must fail)",
          "Every late call class and every probe after it equals the model; late writes being accepted is a recorded known finding, every other deviation is reported.", "trusted: reference model", "3/C13"),
  "C18": ("exploration", "runtime comparison of the real per-key version list with a linear-scan specification: exhaustive over all subsets of 12 versions x all points x all horizons, plus seeded long interleavings",
          "Exhaustive for lists drawn from 12 sequence numbers (every subset, every snapshot point, every horizon), seeded for long lists.", "trusted: linear-scan specification", "3/C18"),
